@@ -205,8 +205,9 @@ class PGen:
 
 
 def markers_in_path_index(E):
-    """ids of markers that sit inside an index / slice-bound position of a path expression"""
-    found = set()
+    """marker id -> ids (Python object identities) of the path-expression nodes in whose index / slice-bound
+    positions the marker sits (innermost and enclosing ones)"""
+    found = {}
 
     def ids(t, acc):
         if isinstance(t, tuple):
@@ -219,14 +220,30 @@ def markers_in_path_index(E):
         if not isinstance(t, tuple):
             return
         if t and t[0] == "path":
+            acc = set()
             for part, _opt in t[2]:
                 for x in part[1:]:
                     if x is not None:
-                        ids(x, found)
+                        ids(x, acc)
+            for m in acc:
+                found.setdefault(m, set()).add(id(t))
         for x in t:
             go(x)
     go(E)
     return found
+
+
+def within_known_deviation(marker, fired, allowed, k, in_index, entries):
+    """The known finding C03-path-index-on-entry, made exact: jaq evaluates the index filters of `f[x]` when the
+    path expression is *entered* (once, before and regardless of the outputs of `f`) in addition to what the
+    documented expansion does. So a marker in an index position may fire, before output k, at most
+    (reference firings before k) + (reference entries of its enclosing path expressions before k) times.
+    Anything beyond that - in particular a path expression that is itself entered too early - is not covered."""
+    nodes = in_index.get(marker)
+    if not nodes:
+        return False
+    n_entries = sum(1 for node, idx in entries if node in nodes and idx < k)
+    return fired <= allowed + n_entries
 
 
 INPUT_STREAM = [11, 22, 33, 44, 55]
@@ -328,13 +345,16 @@ def task(t):
         text = A.render(E, "min")
         w = {"producer": text, "profile": profile}
         w.update(extra)
-        if "marker" in extra and extra["marker"] in markers_in_path_index(E):
-            # call site: the effect sits in the index position of a path expression `f[x]`
+        if "marker" in extra and within_known_deviation(extra["marker"], extra["fired"], extra["allowed"], extra.get("k", 1 << 30),
+                                                          cur["in_index"], cur["entries"]):
+            # call site: the effect sits in the index position of a path expression `f[x]` and fired no more often
+            # than entering that path expression (as the reference does) explains
             key = "path-index-evaluated-on-entry"
         else:
             key = "%s:%s" % (kind, "+".join(sorted(extra.get("_kinds", [])))[:80])
         out["viol"].append((key, w))
 
+    cur = {"in_index": {}, "entries": []}
     for _ in range(count):
         g = PGen(rng, size)
         E = A.normalize(g.prod())
@@ -354,7 +374,9 @@ def task(t):
         cyc = g.uses_inputs and g.infinite
         base_case = {"input": None, "inputs": [enc(x) for x in INPUT_STREAM], "repeat_inputs": cyc}
         kinds = sorted(g.kinds)
-        in_index = markers_in_path_index(E)
+        in_index_nodes = markers_in_path_index(E)
+        in_index = set(in_index_nodes)
+        cur["in_index"], cur["entries"] = in_index_nodes, list(it.entries)
         # ---- (1) the library iterator: pull one by one, all cuts at once ------------------------
         try:
             resp = c.eval(text, [dict(base_case, take=len(outs) + (0 if end[0] == "cut" else 1))], timeout=40)
